@@ -3,5 +3,1157 @@ import PsaDhcp.Model.System
 import PsaDhcp.Spec.ServerSpec
 import PsaDhcp.Proofs.Ipdb
 import PsaDhcp.Proofs.Safety
+/-
+Proofs for C05 (`Props/C05.lean`) and C09 (`Props/C09.lean`), on top of `Proofs/Ipdb.lean` (table-level facts) and
+`Proofs/Safety.lean` (the invariant `Inv` of reachable systems).
+
+* `step_elim` and the `step_*_some/none` equations describe one event of `Sys.step` with its database call abstracted
+  (the kernel must never evaluate a call on a symbolic address, see `Proofs/Safety.lean`).
+* `Extra` extends `Safety.Inv`: every unexpired grant is backed by a binding whose expiry covers it (also for permanent
+  bindings), and unexpired grants to one holder carry one address.  `reach_extra` is its `reach_inv`.
+* `handleV_*` / `handle_*` are the paths of the sequential handler, used for the C05 handler theorems and for
+  `handle_is_a_run`.
+* `C05.silent_only_if_exhausted` is FALSE as stated (`silent_only_if_exhausted_false`, a kernel-checked counterexample:
+  a database whose dynamic range lies outside its network); `silent_only_if_exhausted_repaired` adds the missing
+  hypothesis `db.netFrom ≤ db.dynFrom ∧ db.dynTo ≤ db.netTo`.
+-/
 namespace PsaDhcp.Proofs.Liveness
+open PsaDhcp PsaDhcp.Spec PsaDhcp.Proofs.Ipdb PsaDhcp.Proofs.Safety
+
+/-! ## One event, with the database call abstracted -/
+
+section Step
+variable {σ : Type}
+
+/-- The reply a confirming `UpdateClient` justifies. -/
+def grantOf (c : SrvCfg) (t : Int) (kind : ReplyKind) (rx : Rx) (duid : Duid) (a : Nat) : Except DbErr Unit → List Sent
+  | .error _ => []
+  | .ok _ => [⟨t, kind, a, duid, rx, leaseFrame c kind rx.msg (Ip4.ofNat a)⟩]
+
+/-- The system after the confirming `UpdateClient` of handler `i` returned `u`. -/
+def updResult (c : SrvCfg) (s : Sys σ) (i : Nat) (t : Int) (kind : ReplyKind) (rx : Rx) (duid : Duid) (a : Nat) (ttl : Int)
+    (u : IPDB σ × Except DbErr Unit) : Sys σ :=
+  { db := u.1, pend := s.pend.set i .done, sent := grantOf c t kind rx duid a u.2 ++ s.sent,
+    calls := (t, DbOp.updateClient (some (Ip4.ofNat a)) duid ttl) :: s.calls }
+
+theorem step_hold_some (S : Store σ) (c : SrvCfg) (s : Sys σ) (i : Nat) (t : Int) {rx : Rx} {duid : Duid} {a : Nat}
+    (hp : s.pend[i]? = some (.a2 rx duid a)) :
+    Sys.step S c s (.hold i t) =
+      updResult c s i t .offer rx duid a offerHoldNs (s.db.updateClient S t (some (Ip4.ofNat a)) duid offerHoldNs) := by
+  rw [Sys.step, hold_match hp]
+  generalize s.db.updateClient S t (some (Ip4.ofNat a)) duid offerHoldNs = u
+  obtain ⟨db', r⟩ := u
+  cases r <;> rfl
+
+theorem step_hold_none (S : Store σ) (c : SrvCfg) (s : Sys σ) (i : Nat) (t : Int)
+    (hp : ∀ rx duid a, s.pend[i]? ≠ some (.a2 rx duid a)) : Sys.step S c s (.hold i t) = s := by
+  rw [Sys.step, hold_match_other hp]
+
+theorem step_lease_some (S : Store σ) (c : SrvCfg) (s : Sys σ) (i : Nat) (t : Int) {rx : Rx} {duid : Duid} {a : Nat}
+    (hp : s.pend[i]? = some (.b2 rx duid a)) :
+    Sys.step S c s (.lease i t) =
+      updResult c s i t .ack rx duid a c.leaseNs (s.db.updateClient S t (some (Ip4.ofNat a)) duid c.leaseNs) := by
+  rw [Sys.step, lease_match hp]
+  generalize s.db.updateClient S t (some (Ip4.ofNat a)) duid c.leaseNs = u
+  obtain ⟨db', r⟩ := u
+  cases r <;> rfl
+
+theorem step_lease_none (S : Store σ) (c : SrvCfg) (s : Sys σ) (i : Nat) (t : Int)
+    (hp : ∀ rx duid a, s.pend[i]? ≠ some (.b2 rx duid a)) : Sys.step S c s (.lease i t) = s := by
+  rw [Sys.step, lease_match_other hp]
+
+/-- The system after `recv` of a decodable packet, given what `getDuid` returned. -/
+def recvResult (c : SrvCfg) (s : Sys σ) (t : Int) (rx : Rx) (g : IPDB σ × Duid) : Sys σ :=
+  { db := g.1,
+    pend := s.pend ++ (match todo c g.1 rx with
+      | .drop => [] | .discover => [.a1 rx g.2] | .request want => [.b1 rx g.2 want]),
+    sent := s.sent, calls := (t, DbOp.lookupByDuid (sduid rx.msg.chaddr)) :: s.calls }
+
+theorem step_recv_some (S : Store σ) (c : SrvCfg) (s : Sys σ) (t : Int) (b : Bytes) {rx : Rx}
+    (hrx : rxChain b = .ok (some rx)) :
+    Sys.step S c s (.recv t b) =
+      recvResult c s t rx (getDuid S s.db t rx.msg.chaddr (decodeOptions rx.msg.options).clientIdentifier) := by
+  rw [Sys.step, recv_match hrx]
+  dsimp only
+  generalize getDuid S s.db t rx.msg.chaddr (decodeOptions rx.msg.options).clientIdentifier = g
+  unfold recvResult
+  generalize todo c g.1 rx = td
+  cases td <;> simp
+
+theorem step_recv_none (S : Store σ) (c : SrvCfg) (s : Sys σ) (t : Int) (b : Bytes)
+    (hrx : ∀ rx, rxChain b ≠ .ok (some rx)) : Sys.step S c s (.recv t b) = s := by
+  rw [Sys.step, recv_match_other hrx]
+
+/-- The system after `FindIP` of handler `i` returned `f`. -/
+def findResult (s : Sys σ) (i : Nat) (t : Int) (perm : List Nat) (orc : Nat → IPDB.Iter) (tEnd : Int) (rx : Rx) (duid : Duid)
+    (f : IPDB σ × Except DbErr Nat) : Sys σ :=
+  { db := f.1, pend := s.pend.set i (match f.2 with | .error _ => .done | .ok a => .a2 rx duid a), sent := s.sent,
+    calls := (t, DbOp.findIP (decodeOptions rx.msg.options).requestedIP duid perm orc tEnd) :: s.calls }
+
+theorem step_find_some (S : Store σ) (c : SrvCfg) (s : Sys σ) (i : Nat) (t : Int) (perm : List Nat) (orc : Nat → IPDB.Iter)
+    (tEnd : Int) {rx : Rx} {duid : Duid} (hp : s.pend[i]? = some (.a1 rx duid)) :
+    Sys.step S c s (.find i t perm orc tEnd) =
+      findResult s i t perm orc tEnd rx duid (s.db.findIP S t (decodeOptions rx.msg.options).requestedIP duid perm orc) := by
+  rw [Sys.step, find_match hp]
+  dsimp only
+  generalize s.db.findIP S t (decodeOptions rx.msg.options).requestedIP duid perm orc = f
+  obtain ⟨db', r⟩ := f
+  cases r <;> rfl
+
+theorem step_find_none (S : Store σ) (c : SrvCfg) (s : Sys σ) (i : Nat) (t : Int) (perm : List Nat) (orc : Nat → IPDB.Iter)
+    (tEnd : Int) (hp : ∀ rx duid, s.pend[i]? ≠ some (.a1 rx duid)) : Sys.step S c s (.find i t perm orc tEnd) = s := by
+  rw [Sys.step, find_match_other hp]
+
+/-- The system after the `LookupClientByDuid` of handler `i` returned `l`. -/
+def lookResult (c : SrvCfg) (s : Sys σ) (i : Nat) (t : Int) (probeFree : Bool) (rx : Rx) (duid : Duid) (want : Nat)
+    (l : IPDB σ × Except DbErr Nat) : Sys σ :=
+  match l.2 with
+  | .ok lease =>
+    if want = lease ∧ probeFree = true then
+      { db := l.1, pend := s.pend.set i (.b2 rx duid lease), sent := s.sent, calls := (t, DbOp.lookupByDuid duid) :: s.calls }
+    else
+      { db := l.1, pend := s.pend.set i .done, sent := ⟨t, .nak, 0, duid, rx, nakFrame c rx.msg⟩ :: s.sent,
+        calls := (t, DbOp.lookupByDuid duid) :: s.calls }
+  | .error _ =>
+      { db := l.1, pend := s.pend.set i .done, sent := ⟨t, .nak, 0, duid, rx, nakFrame c rx.msg⟩ :: s.sent,
+        calls := (t, DbOp.lookupByDuid duid) :: s.calls }
+
+theorem step_look_some (S : Store σ) (c : SrvCfg) (s : Sys σ) (i : Nat) (t : Int) (probeFree : Bool) {rx : Rx} {duid : Duid}
+    {want : Ip4} (hp : s.pend[i]? = some (.b1 rx duid want)) :
+    Sys.step S c s (.look i t probeFree) =
+      lookResult c s i t probeFree rx duid want.toNat (s.db.lookupByDuid S t duid) := by
+  rw [Sys.step, look_match hp]
+  generalize s.db.lookupByDuid S t duid = l
+  generalize want.toNat = w
+  obtain ⟨db', r⟩ := l
+  cases r with
+  | error e => rfl
+  | ok lease =>
+    unfold lookResult
+    simp only
+    by_cases hw : w = lease
+    · by_cases hpf : probeFree = true
+      · rw [if_neg (by simp [hw]), if_neg (by simp [hpf]), if_pos ⟨hw, hpf⟩]; rfl
+      · rw [if_neg (by simp [hw]), if_pos (by simp [hpf]), if_neg (fun h => hpf h.2)]; rfl
+    · rw [if_pos hw, if_neg (fun h => hw h.1)]; rfl
+
+theorem step_look_none (S : Store σ) (c : SrvCfg) (s : Sys σ) (i : Nat) (t : Int) (probeFree : Bool)
+    (hp : ∀ rx duid want, s.pend[i]? ≠ some (.b1 rx duid want)) : Sys.step S c s (.look i t probeFree) = s := by
+  rw [Sys.step, look_match_other hp]
+
+theorem getDuid_fst (S : Store σ) (db : IPDB σ) (t : Int) (hw cid : Bytes) :
+    (getDuid S db t hw cid).1 = (db.lookupByDuid S t (sduid hw)).1 := by
+  unfold getDuid
+  dsimp only
+  split
+  · rfl
+  · split <;> rfl
+
+/-- Database operations that never write the reference table. -/
+inductive ReadOnly : DbOp → Prop
+  | look (d : Duid) : ReadOnly (.lookupByDuid d)
+  | find (sugg : Option Ip4) (d : Duid) (perm : List Nat) (orc : Nat → IPDB.Iter) (tEnd : Int) :
+      ReadOnly (.findIP sugg d perm orc tEnd)
+
+/-- Every event is a no-op, one read-only database call (possibly answered by a NAK), or the confirming
+`UpdateClient` of a handler waiting in `a2` / `b2`. -/
+theorem step_elim (S : Store σ) (c : SrvCfg) (s : Sys σ) (e : Ev) :
+    Sys.step S c s e = s ∨
+    (∃ op pend' new, ReadOnly op ∧ (∀ x ∈ new, x.kind = .nak) ∧ new.length ≤ 1 ∧
+      Sys.step S c s e =
+        { db := (s.db.step S e.t op).1, pend := pend', sent := new ++ s.sent, calls := (e.t, op) :: s.calls }) ∨
+    (∃ i kind rx duid a ttl,
+      ((s.pend[i]? = some (.a2 rx duid a) ∧ kind = .offer ∧ ttl = offerHoldNs) ∨
+       (s.pend[i]? = some (.b2 rx duid a) ∧ kind = .ack ∧ ttl = c.leaseNs)) ∧
+      Sys.step S c s e =
+        updResult c s i e.t kind rx duid a ttl (s.db.updateClient S e.t (some (Ip4.ofNat a)) duid ttl)) := by
+  cases e with
+  | recv t b =>
+    simp only [Ev.t]
+    by_cases hex : ∃ rx, rxChain b = .ok (some rx)
+    · obtain ⟨rx, hrx⟩ := hex
+      rw [step_recv_some S c s t b hrx]
+      unfold recvResult
+      rw [getDuid_fst]
+      exact Or.inr (Or.inl ⟨.lookupByDuid (sduid rx.msg.chaddr), _, [], .look _, by simp, by simp, rfl⟩)
+    · exact Or.inl (step_recv_none S c s t b (fun rx h => hex ⟨rx, h⟩))
+  | find i t perm orc tEnd =>
+    simp only [Ev.t]
+    by_cases hex : ∃ rx duid, s.pend[i]? = some (.a1 rx duid)
+    · obtain ⟨rx, duid, hp⟩ := hex
+      rw [step_find_some S c s i t perm orc tEnd hp]
+      exact Or.inr (Or.inl ⟨.findIP (decodeOptions rx.msg.options).requestedIP duid perm orc tEnd, _, [],
+        .find _ _ _ _ _, by simp, by simp, rfl⟩)
+    · exact Or.inl (step_find_none S c s i t perm orc tEnd (fun rx duid h => hex ⟨rx, duid, h⟩))
+  | hold i t =>
+    by_cases hex : ∃ rx duid a, s.pend[i]? = some (.a2 rx duid a)
+    · obtain ⟨rx, duid, a, hp⟩ := hex
+      exact Or.inr (Or.inr ⟨i, .offer, rx, duid, a, offerHoldNs, Or.inl ⟨hp, rfl, rfl⟩, step_hold_some S c s i t hp⟩)
+    · exact Or.inl (step_hold_none S c s i t (fun rx duid a h => hex ⟨rx, duid, a, h⟩))
+  | look i t probeFree =>
+    simp only [Ev.t]
+    by_cases hex : ∃ rx duid want, s.pend[i]? = some (.b1 rx duid want)
+    · obtain ⟨rx, duid, want, hp⟩ := hex
+      rw [step_look_some S c s i t probeFree hp]
+      have hdb : (s.db.step S t (.lookupByDuid duid)).1 = (s.db.lookupByDuid S t duid).1 := rfl
+      unfold lookResult
+      generalize s.db.lookupByDuid S t duid = l at hdb ⊢
+      obtain ⟨db', r⟩ := l
+      have hdb' : (s.db.step S t (.lookupByDuid duid)).1 = db' := hdb
+      cases r with
+      | error e =>
+        rw [← hdb']
+        exact Or.inr (Or.inl ⟨.lookupByDuid duid, _, [⟨t, .nak, 0, duid, rx, nakFrame c rx.msg⟩], .look _,
+          by simp, by simp, rfl⟩)
+      | ok lease =>
+        simp only
+        rw [← hdb']
+        split
+        · exact Or.inr (Or.inl ⟨.lookupByDuid duid, _, [], .look _, by simp, by simp, rfl⟩)
+        · exact Or.inr (Or.inl ⟨.lookupByDuid duid, _, [⟨t, .nak, 0, duid, rx, nakFrame c rx.msg⟩], .look _,
+            by simp, by simp, rfl⟩)
+    · exact Or.inl (step_look_none S c s i t probeFree (fun rx duid want h => hex ⟨rx, duid, want, h⟩))
+  | lease i t =>
+    by_cases hex : ∃ rx duid a, s.pend[i]? = some (.b2 rx duid a)
+    · obtain ⟨rx, duid, a, hp⟩ := hex
+      exact Or.inr (Or.inr ⟨i, .ack, rx, duid, a, c.leaseNs, Or.inr ⟨hp, rfl, rfl⟩, step_lease_some S c s i t hp⟩)
+    · exact Or.inl (step_lease_none S c s i t (fun rx duid a h => hex ⟨rx, duid, a, h⟩))
+
+/-! ## C09: serialisation, races -/
+
+theorem updResult_db (c : SrvCfg) (s : Sys σ) (i : Nat) (t : Int) (kind : ReplyKind) (rx : Rx) (duid : Duid) (a : Nat)
+    (ttl : Int) (u : IPDB σ × Except DbErr Unit) : (updResult c s i t kind rx duid a ttl u).db = u.1 := rfl
+
+theorem updResult_calls (c : SrvCfg) (s : Sys σ) (i : Nat) (t : Int) (kind : ReplyKind) (rx : Rx) (duid : Duid) (a : Nat)
+    (ttl : Int) (u : IPDB σ × Except DbErr Unit) :
+    (updResult c s i t kind rx duid a ttl u).calls = (t, DbOp.updateClient (some (Ip4.ofNat a)) duid ttl) :: s.calls := rfl
+
+theorem updResult_pend (c : SrvCfg) (s : Sys σ) (i : Nat) (t : Int) (kind : ReplyKind) (rx : Rx) (duid : Duid) (a : Nat)
+    (ttl : Int) (u : IPDB σ × Except DbErr Unit) : (updResult c s i t kind rx duid a ttl u).pend = s.pend.set i .done := rfl
+
+theorem updResult_sent_ok (c : SrvCfg) (s : Sys σ) (i : Nat) (t : Int) (kind : ReplyKind) (rx : Rx) (duid : Duid) (a : Nat)
+    (ttl : Int) (u : IPDB σ × Except DbErr Unit) (v : Unit) (h : u.2 = .ok v) :
+    (updResult c s i t kind rx duid a ttl u).sent =
+      ⟨t, kind, a, duid, rx, leaseFrame c kind rx.msg (Ip4.ofNat a)⟩ :: s.sent := by
+  obtain ⟨d, r⟩ := u
+  cases h; rfl
+
+theorem updResult_sent_err (c : SrvCfg) (s : Sys σ) (i : Nat) (t : Int) (kind : ReplyKind) (rx : Rx) (duid : Duid) (a : Nat)
+    (ttl : Int) (u : IPDB σ × Except DbErr Unit) (x : DbErr) (h : u.2 = .error x) :
+    (updResult c s i t kind rx duid a ttl u).sent = s.sent := by
+  obtain ⟨d, r⟩ := u
+  cases h; rfl
+
+/-- Replay of a call log (newest first) from `db0`. -/
+def replay (S : Store σ) (db0 : IPDB σ) (calls : List (Int × DbOp)) : IPDB σ :=
+  calls.reverse.foldl (fun db tc => (db.step S tc.1 tc.2).1) db0
+
+theorem replay_cons (S : Store σ) (db0 : IPDB σ) (t : Int) (op : DbOp) (calls : List (Int × DbOp)) :
+    replay S db0 ((t, op) :: calls) = ((replay S db0 calls).step S t op).1 := by
+  unfold replay
+  rw [List.reverse_cons, List.foldl_append]
+  rfl
+
+theorem step_updateClient_fst (S : Store σ) (db : IPDB σ) (t : Int) (ip : Option Ip4) (d : Duid) (ttl : Int) :
+    (db.step S t (.updateClient ip d ttl)).1 = (db.updateClient S t ip d ttl).1 := rfl
+
+theorem step_serial (S : Store σ) (c : SrvCfg) (db0 : IPDB σ) (s : Sys σ) (e : Ev) (h : s.db = replay S db0 s.calls) :
+    (Sys.step S c s e).db = replay S db0 (Sys.step S c s e).calls := by
+  rcases step_elim S c s e with he | ⟨op, pend', new, -, -, -, he⟩ | ⟨i, kind, rx, duid, a, ttl, -, he⟩
+  · rw [he]; exact h
+  · rw [he]
+    simp only []
+    rw [replay_cons, ← h]
+  · rw [he, updResult_db, updResult_calls, replay_cons, ← h, step_updateClient_fst]
+
+theorem run_serial (S : Store σ) (c : SrvCfg) (db0 : IPDB σ) (evs : List Ev) :
+    ∀ s : Sys σ, s.db = replay S db0 s.calls → (Sys.run S c s evs).db = replay S db0 (Sys.run S c s evs).calls := by
+  induction evs with
+  | nil => intro s h; exact h
+  | cons e rest ih => intro s h; exact ih _ (step_serial S c db0 s e h)
+
+end Step
+
+theorem calls_serialize (c : SrvCfg) (db0 : IPDB Table) (evs : List Ev) :
+    (Sys.run tableStore c { db := db0 } evs).db =
+      ((Sys.run tableStore c { db := db0 } evs).calls.reverse.foldl (fun db tc => (db.step tableStore tc.1 tc.2).1) db0) :=
+  run_serial tableStore c db0 evs { db := db0 } rfl
+
+theorem race_only_silence (c : SrvCfg) (s : Sys Table) (e : Ev) :
+    (s.step tableStore c e).sent = s.sent ∨
+    ∃ x, (s.step tableStore c e).sent = x :: s.sent ∧
+      (x.kind = .nak ∨
+       ((s.step tableStore c e).calls.head? = some (x.t, DbOp.updateClient (some (Ip4.ofNat x.addr)) x.duid (x.ttl c)) ∧
+        (s.db.updateClient tableStore x.t (some (Ip4.ofNat x.addr)) x.duid (x.ttl c)).2 = .ok ())) := by
+  rcases step_elim tableStore c s e with he | ⟨op, pend', new, -, hnak, hlen, he⟩ | ⟨i, kind, rx, duid, a, ttl, hk, he⟩
+  · rw [he]; exact Or.inl rfl
+  · rw [he]
+    match new, hnak, hlen with
+    | [], _, _ => exact Or.inl rfl
+    | [x], hnak, _ => exact Or.inr ⟨x, rfl, Or.inl (hnak x (by simp))⟩
+    | _ :: _ :: _, _, hlen => simp at hlen
+  · rw [he]
+    have httl : ∀ fr, (⟨e.t, kind, a, duid, rx, fr⟩ : Sent).ttl c = ttl := by
+      intro fr
+      rcases hk with ⟨-, rfl, rfl⟩ | ⟨-, rfl, rfl⟩ <;> rfl
+    cases hr : (s.db.updateClient tableStore e.t (some (Ip4.ofNat a)) duid ttl).2 with
+    | error x => exact Or.inl (updResult_sent_err _ _ _ _ _ _ _ _ _ _ x hr)
+    | ok v =>
+      refine Or.inr ⟨_, updResult_sent_ok _ _ _ _ _ _ _ _ _ _ v hr, Or.inr ?_⟩
+      rw [updResult_calls]
+      simp only [httl, List.head?_cons]
+      exact ⟨trivial, hr⟩
+
+/-! ## C09: a step is local to its handler -/
+
+section Local
+variable {σ : Type}
+
+theorem local_same (s₁ s₂ : Sys σ) (i : Nat) (hdb : s₁.db = s₂.db) (hp : s₁.pend[i]? = s₂.pend[i]?) :
+    s₁.db = s₂.db ∧ s₁.pend[i]? = s₂.pend[i]? ∧ (s₁.sent.length - s₁.sent.length = s₂.sent.length - s₂.sent.length) ∧
+    (∀ j, j ≠ i → s₁.pend[j]? = s₁.pend[j]?) :=
+  ⟨hdb, hp, by omega, fun _ _ => rfl⟩
+
+theorem local_set (s₁ s₂ : Sys σ) (i : Nat) (d : IPDB σ) (p q : Pending) (new : List Sent) (k₁ k₂ : List (Int × DbOp))
+    (hp : s₁.pend[i]? = s₂.pend[i]?) (hq : s₁.pend[i]? = some q) :
+    let r₁ : Sys σ := { db := d, pend := s₁.pend.set i p, sent := new ++ s₁.sent, calls := k₁ }
+    let r₂ : Sys σ := { db := d, pend := s₂.pend.set i p, sent := new ++ s₂.sent, calls := k₂ }
+    r₁.db = r₂.db ∧ r₁.pend[i]? = r₂.pend[i]? ∧ (r₁.sent.length - s₁.sent.length = r₂.sent.length - s₂.sent.length) ∧
+    (∀ j, j ≠ i → r₁.pend[j]? = s₁.pend[j]?) := by
+  intro r₁ r₂
+  have h1 : i < s₁.pend.length := (List.getElem?_eq_some_iff.1 hq).1
+  have h2 : i < s₂.pend.length := (List.getElem?_eq_some_iff.1 (hp ▸ hq)).1
+  refine ⟨rfl, ?_, ?_, ?_⟩
+  · show (s₁.pend.set i p)[i]? = (s₂.pend.set i p)[i]?
+    rw [List.getElem?_set_self h1, List.getElem?_set_self h2]
+  · show (new ++ s₁.sent).length - _ = (new ++ s₂.sent).length - _
+    rw [List.length_append, List.length_append]; omega
+  · intro j hj
+    show (s₁.pend.set i p)[j]? = _
+    rw [List.getElem?_set_ne (Ne.symm hj)]
+
+theorem updResult_shape (c : SrvCfg) (i : Nat) (t : Int) (kind : ReplyKind) (rx : Rx) (duid : Duid) (a : Nat) (ttl : Int)
+    (u : IPDB σ × Except DbErr Unit) :
+    ∃ p new, ∀ s : Sys σ, updResult c s i t kind rx duid a ttl u =
+      { db := u.1, pend := s.pend.set i p, sent := new ++ s.sent,
+        calls := (t, DbOp.updateClient (some (Ip4.ofNat a)) duid ttl) :: s.calls } :=
+  ⟨_, _, fun _ => rfl⟩
+
+theorem findResult_shape (i : Nat) (t : Int) (perm : List Nat) (orc : Nat → IPDB.Iter) (tEnd : Int) (rx : Rx) (duid : Duid)
+    (f : IPDB σ × Except DbErr Nat) :
+    ∃ p new, ∀ s : Sys σ, findResult s i t perm orc tEnd rx duid f =
+      { db := f.1, pend := s.pend.set i p, sent := new ++ s.sent,
+        calls := (t, DbOp.findIP (decodeOptions rx.msg.options).requestedIP duid perm orc tEnd) :: s.calls } :=
+  ⟨_, [], fun _ => rfl⟩
+
+theorem lookResult_shape (c : SrvCfg) (i : Nat) (t : Int) (probeFree : Bool) (rx : Rx) (duid : Duid) (want : Nat)
+    (l : IPDB σ × Except DbErr Nat) :
+    ∃ p new, ∀ s : Sys σ, lookResult c s i t probeFree rx duid want l =
+      { db := l.1, pend := s.pend.set i p, sent := new ++ s.sent, calls := (t, DbOp.lookupByDuid duid) :: s.calls } := by
+  obtain ⟨d, r⟩ := l
+  unfold lookResult
+  cases r with
+  | error e => exact ⟨.done, [_], fun _ => rfl⟩
+  | ok lease =>
+    simp only
+    split
+    · exact ⟨_, [], fun _ => rfl⟩
+    · exact ⟨.done, [_], fun _ => rfl⟩
+
+end Local
+
+theorem step_is_local (c : SrvCfg) (s₁ s₂ : Sys Table) (e : Ev) (i : Nat)
+    (he : match e with | .find j _ _ _ _ | .hold j _ | .look j _ _ | .lease j _ => j = i | .recv _ _ => False)
+    (hdb : s₁.db = s₂.db) (hp : s₁.pend[i]? = s₂.pend[i]?) :
+    (s₁.step tableStore c e).db = (s₂.step tableStore c e).db ∧
+    (s₁.step tableStore c e).pend[i]? = (s₂.step tableStore c e).pend[i]? ∧
+    ((s₁.step tableStore c e).sent.length - s₁.sent.length = (s₂.step tableStore c e).sent.length - s₂.sent.length) ∧
+    (∀ j, j ≠ i → (s₁.step tableStore c e).pend[j]? = s₁.pend[j]?) := by
+  cases e with
+  | recv t b => exact absurd he id
+  | find j t perm orc tEnd =>
+    have he : j = i := he
+    subst he
+    by_cases hex : ∃ rx duid, s₁.pend[j]? = some (.a1 rx duid)
+    · obtain ⟨rx, duid, h1⟩ := hex
+      rw [step_find_some _ c s₁ j t perm orc tEnd h1, step_find_some _ c s₂ j t perm orc tEnd (hp ▸ h1), ← hdb]
+      obtain ⟨p, new, hs⟩ := findResult_shape j t perm orc tEnd rx duid
+        (s₁.db.findIP tableStore t (decodeOptions rx.msg.options).requestedIP duid perm orc)
+      rw [hs, hs]
+      exact local_set s₁ s₂ j _ p _ new _ _ hp h1
+    · have hex2 : ∀ rx duid, s₂.pend[j]? ≠ some (.a1 rx duid) := fun rx duid h => hex ⟨rx, duid, hp ▸ h⟩
+      rw [step_find_none _ c s₁ j t perm orc tEnd (fun rx duid h => hex ⟨rx, duid, h⟩),
+        step_find_none _ c s₂ j t perm orc tEnd hex2]
+      exact local_same s₁ s₂ j hdb hp
+  | hold j t =>
+    have he : j = i := he
+    subst he
+    by_cases hex : ∃ rx duid a, s₁.pend[j]? = some (.a2 rx duid a)
+    · obtain ⟨rx, duid, a, h1⟩ := hex
+      rw [step_hold_some _ c s₁ j t h1, step_hold_some _ c s₂ j t (hp ▸ h1), ← hdb]
+      obtain ⟨p, new, hs⟩ := updResult_shape c j t .offer rx duid a offerHoldNs
+        (s₁.db.updateClient tableStore t (some (Ip4.ofNat a)) duid offerHoldNs)
+      rw [hs, hs]
+      exact local_set s₁ s₂ j _ p _ new _ _ hp h1
+    · have hex2 : ∀ rx duid a, s₂.pend[j]? ≠ some (.a2 rx duid a) := fun rx duid a h => hex ⟨rx, duid, a, hp ▸ h⟩
+      rw [step_hold_none _ c s₁ j t (fun rx duid a h => hex ⟨rx, duid, a, h⟩), step_hold_none _ c s₂ j t hex2]
+      exact local_same s₁ s₂ j hdb hp
+  | look j t probeFree =>
+    have he : j = i := he
+    subst he
+    by_cases hex : ∃ rx duid want, s₁.pend[j]? = some (.b1 rx duid want)
+    · obtain ⟨rx, duid, want, h1⟩ := hex
+      rw [step_look_some _ c s₁ j t probeFree h1, step_look_some _ c s₂ j t probeFree (hp ▸ h1), ← hdb]
+      obtain ⟨p, new, hs⟩ := lookResult_shape c j t probeFree rx duid want.toNat (s₁.db.lookupByDuid tableStore t duid)
+      rw [hs, hs]
+      exact local_set s₁ s₂ j _ p _ new _ _ hp h1
+    · have hex2 : ∀ rx duid want, s₂.pend[j]? ≠ some (.b1 rx duid want) :=
+        fun rx duid want h => hex ⟨rx, duid, want, hp ▸ h⟩
+      rw [step_look_none _ c s₁ j t probeFree (fun rx duid want h => hex ⟨rx, duid, want, h⟩),
+        step_look_none _ c s₂ j t probeFree hex2]
+      exact local_same s₁ s₂ j hdb hp
+  | lease j t =>
+    have he : j = i := he
+    subst he
+    by_cases hex : ∃ rx duid a, s₁.pend[j]? = some (.b2 rx duid a)
+    · obtain ⟨rx, duid, a, h1⟩ := hex
+      rw [step_lease_some _ c s₁ j t h1, step_lease_some _ c s₂ j t (hp ▸ h1), ← hdb]
+      obtain ⟨p, new, hs⟩ := updResult_shape c j t .ack rx duid a c.leaseNs
+        (s₁.db.updateClient tableStore t (some (Ip4.ofNat a)) duid c.leaseNs)
+      rw [hs, hs]
+      exact local_set s₁ s₂ j _ p _ new _ _ hp h1
+    · have hex2 : ∀ rx duid a, s₂.pend[j]? ≠ some (.b2 rx duid a) := fun rx duid a h => hex ⟨rx, duid, a, hp ▸ h⟩
+      rw [step_lease_none _ c s₁ j t (fun rx duid a h => hex ⟨rx, duid, a, h⟩), step_lease_none _ c s₂ j t hex2]
+      exact local_same s₁ s₂ j hdb hp
+
+/-! ## C05: the invariant of `Proofs/Safety.lean`, extended
+
+`Safety.Granted` lets a permanent binding back a grant whatever its expiry; here the expiry is tracked for every
+binding, and grants to one holder are compared pairwise. -/
+
+/-- A grant has run out, or the table holds the holder's binding of that address, not expiring before the grant. -/
+def Backed (c : SrvCfg) (T : Table) (now : Int) (s : Sent) : Prop :=
+  s.t + s.ttl c < now ∨ ∃ x ∈ T, x.ip = s.addr ∧ x.duid = s.duid ∧ s.t + s.ttl c ≤ x.exp
+
+def SameAddr (c : SrvCfg) (sent : List Sent) : Prop :=
+  ∀ s₁ ∈ sent, ∀ s₂ ∈ sent, s₁.kind ≠ .nak → s₂.kind ≠ .nak → s₁.duid = s₂.duid →
+    s₁.t ≤ s₂.t → s₂.t ≤ s₁.t + s₁.ttl c → s₂.addr = s₁.addr
+
+structure Extra (c : SrvCfg) (T : Table) (now : Int) (sent : List Sent) : Prop where
+  bk : ∀ s ∈ sent, s.kind ≠ .nak → Backed c T now s
+  sa : 0 ≤ c.leaseNs → SameAddr c sent
+
+theorem Backed.mono {c : SrvCfg} {T : Table} {t t' : Int} {s : Sent} (h : Backed c T t s) (htt : t ≤ t') :
+    Backed c T t' s := by
+  rcases h with h | h
+  · exact Or.inl (by omega)
+  · exact Or.inr h
+
+theorem Extra.mono {c : SrvCfg} {T : Table} {t t' : Int} {sent : List Sent} (h : Extra c T t sent) (htt : t ≤ t') :
+    Extra c T t' sent :=
+  ⟨fun s hs hk => (h.bk s hs hk).mono htt, h.sa⟩
+
+theorem live_of_le {x : Binding} {t : Int} (h : t ≤ x.exp) : x.live t = true := by
+  simp only [Binding.live, Bool.or_eq_true, decide_eq_true_eq]
+  exact Or.inr h
+
+/-- A grant that has not run out is backed by a live binding. -/
+theorem Backed.live {c : SrvCfg} {T : Table} {t : Int} {s : Sent} (h : Backed c T t s) (ht : t ≤ s.t + s.ttl c) :
+    ∃ x ∈ T, x.ip = s.addr ∧ x.duid = s.duid ∧ s.t + s.ttl c ≤ x.exp ∧ x.live t = true := by
+  rcases h with h | ⟨x, hx, e1, e2, e3⟩
+  · omega
+  · exact ⟨x, hx, e1, e2, e3, live_of_le (by omega)⟩
+
+theorem Backed.update {c : SrvCfg} {db : IPDB Table} {t : Int} {s : Sent} (h : Backed c db.s t s)
+    {ip : Option Ip4} {d : Duid} {ttl : Int} {u : IPDB Table × Except DbErr Unit} (f : UpdFacts db t ip d ttl u) :
+    Backed c u.1.s t s := by
+  by_cases hexp : s.t + s.ttl c < t
+  · exact Or.inl hexp
+  · obtain ⟨y, hy, e1, e2, e3, hl⟩ := h.live (by omega)
+    obtain ⟨y', hy', f1, f2, -, f4⟩ := f.ext y hy hl
+    exact Or.inr ⟨y', hy', f1.trans e1, f2.trans e2, by omega⟩
+
+theorem Extra.update {c : SrvCfg} {db : IPDB Table} {t : Int} {sent : List Sent} (h : Extra c db.s t sent)
+    {ip : Option Ip4} {d : Duid} {ttl : Int} {u : IPDB Table × Except DbErr Unit} (f : UpdFacts db t ip d ttl u) :
+    Extra c u.1.s t sent :=
+  ⟨fun s hs hk => (h.bk s hs hk).update f, h.sa⟩
+
+theorem Extra.naks {c : SrvCfg} {T : Table} {t : Int} {sent : List Sent} (h : Extra c T t sent) (new : List Sent)
+    (hn : ∀ x ∈ new, x.kind = .nak) : Extra c T t (new ++ sent) := by
+  have hmem : ∀ s ∈ new ++ sent, s.kind ≠ .nak → s ∈ sent := by
+    intro s hs hk
+    rcases List.mem_append.1 hs with hs | hs
+    · exact absurd (hn s hs) hk
+    · exact hs
+  refine ⟨fun s hs hk => h.bk s (hmem s hs hk) hk, fun hl s₁ h1 s₂ h2 k1 k2 => ?_⟩
+  exact h.sa hl s₁ (hmem s₁ h1 k1) s₂ (hmem s₂ h2 k2) k1 k2
+
+/-- A successful `UpdateClient` of a handler: its grant joins the others. -/
+theorem Extra.grant {c : SrvCfg} {b : Boot} {db : IPDB Table} {t : Int} {sent : List Sent} (hdb : DbInv c b db t)
+    (hle : ∀ s ∈ sent, s.kind ≠ .nak → s.t ≤ t) (hx : Extra c db.s t sent) {a : Nat} {d : Duid} {ttl : Int}
+    (ha : a < 4294967296) (x : Sent) (hxt : x.t = t) (hxa : x.addr = a) (hxd : x.duid = d) (hxl : x.ttl c = ttl)
+    {u : IPDB Table × Except DbErr Unit} (f : UpdFacts db t (some (Ip4.ofNat a)) d ttl u) (hok : u.2 = .ok ()) :
+    Extra c u.1.s t (x :: sent) := by
+  obtain ⟨n, hn, x', hx', e1, e2, e3, hcase⟩ := f.succ hok
+  obtain ⟨hn1, -, -⟩ := toUip_some hn
+  rw [Ip4.toNat_ofNat ha] at hn1
+  subst hn1
+  -- an unexpired earlier grant to this holder carries this address
+  have hsame : ∀ s ∈ sent, s.kind ≠ .nak → s.duid = d → t ≤ s.t + s.ttl c → s.addr = n := by
+    intro s h1 h2 h3 h4
+    obtain ⟨y, hy, f1, f2, -, hl⟩ := (hx.bk s h1 h2).live h4
+    rcases hcase with ⟨z, hz, hzl, z1, z2⟩ | ⟨-, c2⟩
+    · have : y = z := hdb.excl y hy z hz hl hzl (Or.inr (by rw [f2, z2, h3]))
+      subst this
+      exact f1.symm.trans z1
+    · exact absurd (f2.trans h3) (liveDuid_none c2 y hy hl)
+  refine ⟨?_, ?_⟩
+  · intro s h1 h2
+    rcases List.mem_cons.1 h1 with rfl | h1
+    · exact Or.inr ⟨x', hx', e1.trans hxa.symm, e2.trans hxd.symm, by rw [hxt, hxl]; exact e3⟩
+    · exact (hx.bk s h1 h2).update f
+  · intro hl s₁ h1 s₂ h2 k1 k2 hd h12 h21
+    rcases List.mem_cons.1 h1 with e1' | h1' <;> rcases List.mem_cons.1 h2 with e2' | h2'
+    · rw [e1', e2']
+    · subst e1'
+      have g1 := hle s₂ h2' k2
+      have := ttl_nonneg hl s₂
+      rw [hxa]
+      exact hsame s₂ h2' k2 (hd.symm.trans hxd) (by omega)
+    · subst e2'
+      rw [hxa]
+      exact (hsame s₁ h1' k1 (hd.trans hxd) (by omega)).symm
+    · exact hx.sa hl s₁ h1' s₂ h2' k1 k2 hd h12 h21
+
+theorem readOnly_table {op : DbOp} (h : ReadOnly op) (db : IPDB Table) (t : Int) : (db.step tableStore t op).1 = db := by
+  cases h with
+  | look d => show (db.lookupByDuid tableStore t d).1 = db; rw [lookupByDuid_table]
+  | find sugg d perm orc tEnd => exact findIP_table_fst db t sugg d perm orc
+
+theorem ev_t_le_tEnd {e : Ev} (hc : e.ClockOk) : e.t ≤ e.tEnd := by
+  cases e with
+  | find i t perm orc tEnd => exact Int.le_trans hc.1 (hc.2.2 0)
+  | _ => exact Int.le_refl _
+
+theorem step_extra {c : SrvCfg} {b : Boot} {sys : Sys Table} {now : Int} (hi : Inv c b sys now)
+    (hx : Extra c sys.db.s now sys.sent) (e : Ev) (ht : now ≤ e.t) (hc : e.ClockOk) :
+    Extra c (Sys.step tableStore c sys e).db.s e.tEnd (Sys.step tableStore c sys e).sent := by
+  have hi := hi.mono ht
+  have hx := hx.mono ht
+  refine Extra.mono ?_ (ev_t_le_tEnd hc)
+  rcases step_elim tableStore c sys e with he | ⟨op, pend', new, hro, hnak, -, he⟩ | ⟨i, kind, rx, duid, a, ttl, hk, he⟩
+  · rw [he]; exact hx
+  · rw [he]
+    simp only []
+    rw [readOnly_table hro]
+    exact hx.naks new hnak
+  · rw [he, updResult_db]
+    have hao : AddrOk c b a duid := by
+      rcases hk with ⟨hp, -, -⟩ | ⟨hp, -, -⟩
+      · exact (hi.pend _ (List.mem_of_getElem? hp)).2
+      · exact (hi.pend _ (List.mem_of_getElem? hp)).2
+    have httl : ∀ fr, (⟨e.t, kind, a, duid, rx, fr⟩ : Sent).ttl c = ttl := by
+      intro fr
+      rcases hk with ⟨-, rfl, rfl⟩ | ⟨-, rfl, rfl⟩ <;> rfl
+    have f := updFacts sys.db e.t (some (Ip4.ofNat a)) duid ttl
+    cases hr : (sys.db.updateClient tableStore e.t (some (Ip4.ofNat a)) duid ttl).2 with
+    | error x =>
+      rw [updResult_sent_err _ _ _ _ _ _ _ _ _ _ x hr]
+      exact hx.update f
+    | ok v =>
+      rw [updResult_sent_ok _ _ _ _ _ _ _ _ _ _ v hr]
+      exact Extra.grant hi.db (fun s hs hk => (hi.sent.gr s hs hk).1) hx hao.1 _ rfl rfl rfl (httl _) f hr
+
+theorem run_extra {c : SrvCfg} {b : Boot} (evs : List Ev) :
+    ∀ (sys : Sys Table) (now : Int), Inv c b sys now → Extra c sys.db.s now sys.sent → EvMonotone evs →
+      (∀ e ∈ evs.head?, now ≤ e.t) → (∀ e ∈ evs, Ev.PermOk b.dynRange.1 b.dynRange.2 e) →
+      Extra c (Sys.run tableStore c sys evs).db.s (endClock now evs) (Sys.run tableStore c sys evs).sent := by
+  induction evs with
+  | nil => intro sys now _ hx _ _ _; exact hx
+  | cons e rest ih =>
+    intro sys now hi hx hm h0 hp
+    obtain ⟨hc, hh, hm'⟩ := evmono_tail hm
+    have hstep := step_inv hi e (h0 e (by simp)) hc (hp e List.mem_cons_self)
+    have hstepx := step_extra hi hx e (h0 e (by simp)) hc
+    rw [endClock_cons]
+    exact ih _ _ hstep hstepx hm' hh (fun x hx => hp x (List.mem_cons_of_mem _ hx))
+
+theorem reach_extra {c : SrvCfg} {b : Boot} {evs : List Ev} {sys : Sys Table} (h : ReachableT c b evs sys) :
+    Extra c sys.db.s (lastClock b evs) sys.sent := by
+  obtain ⟨hb, hp, db0, hinit, hm, h0, hperm, rfl⟩ := h
+  refine run_extra evs _ _ (init_inv c b db0 hb hp hinit) ⟨?_, ?_⟩ hm h0 hperm
+  · intro s hs; cases hs
+  · intro _ s hs; cases hs
+
+/-- A grant that is still running in a reachable state: the binding that backs it, at any clock up to its end. -/
+theorem grant_binding {c : SrvCfg} {b : Boot} {evs : List Ev} {sys : Sys Table} (h : ReachableT c b evs sys)
+    {s : Sent} (hs : s ∈ sys.sent) (hk : s.kind ≠ .nak) {t : Int} (h1 : lastClock b evs ≤ t) (h2 : t ≤ s.t + s.ttl c) :
+    ∃ x ∈ sys.db.s, x.ip = s.addr ∧ x.duid = s.duid ∧ s.t + s.ttl c ≤ x.exp ∧ x.live t = true ∧
+      sys.db.s.liveIp t s.addr = some x ∧ sys.db.s.liveDuid t s.duid = some x := by
+  have hi := (reach_inv h).mono h1
+  obtain ⟨x, hx, e1, e2, e3, hl⟩ := (((reach_extra h).mono h1).bk s hs hk).live h2
+  refine ⟨x, hx, e1, e2, e3, hl, ?_, ?_⟩
+  · rw [← e1]; exact liveIp_of_mem hi.db.excl hx hl
+  · rw [← e2]; exact liveDuid_of_mem hi.db.excl hx hl
+
+theorem lease_not_shortened (c : SrvCfg) (b : Boot) (evs : List Ev) (sys : Sys Table) (h : ReachableT c b evs sys)
+    (_hl : 0 ≤ c.leaseNs) :
+    ∀ s ∈ sys.sent, s.kind ≠ .nak → ∀ t, lastClock b evs ≤ t → t ≤ s.t + s.ttl c →
+      ∃ bd, sys.db.s.liveIp t s.addr = some bd ∧ bd.duid = s.duid ∧ s.t + s.ttl c ≤ bd.exp := by
+  intro s hs hk t h1 h2
+  obtain ⟨x, -, -, e2, e3, -, h3, -⟩ := grant_binding h hs hk h1 h2
+  exact ⟨x, h3, e2, e3⟩
+
+theorem same_address (c : SrvCfg) (b : Boot) (evs : List Ev) (sys : Sys Table) (h : ReachableT c b evs sys)
+    (hl : 0 ≤ c.leaseNs) :
+    ∀ s₁ ∈ sys.sent, ∀ s₂ ∈ sys.sent, s₁.kind ≠ .nak → s₂.kind ≠ .nak → s₁.duid = s₂.duid →
+      s₁.t ≤ s₂.t → s₂.t ≤ s₁.t + s₁.ttl c → s₂.addr = s₁.addr :=
+  (reach_extra h).sa hl
+
+/-! ## The sequential handler, path by path
+
+`handleV` / `handle` are opened with `delta` and their matchers reduced by equations over abstract alternatives, so
+that the kernel never evaluates a database call on a symbolic address. -/
+
+section Paths
+variable {σ : Type}
+
+theorem todoV_drop {α : Type} {x : Todo} (hx : x = .drop) (A : Unit → α) (B : Unit → α) (C : Ip4 → α) :
+    handleV.match_5 (fun _ => α) x A B C = A () := by subst hx; rfl
+theorem todoV_discover {α : Type} {x : Todo} (hx : x = .discover) (A : Unit → α) (B : Unit → α) (C : Ip4 → α) :
+    handleV.match_5 (fun _ => α) x A B C = B () := by subst hx; rfl
+theorem todoV_request {α : Type} {x : Todo} {want : Ip4} (hx : x = .request want) (A : Unit → α) (B : Unit → α)
+    (C : Ip4 → α) : handleV.match_5 (fun _ => α) x A B C = C want := by subst hx; rfl
+theorem natV_ok {α : Type} {x : Except DbErr Nat} {a : Nat} (hx : x = .ok a) (E : DbErr → α) (K : Nat → α) :
+    handleV.match_3 (fun _ => α) x E K = K a := by subst hx; rfl
+theorem natV_err {α : Type} {x : Except DbErr Nat} {e : DbErr} (hx : x = .error e) (E : DbErr → α) (K : Nat → α) :
+    handleV.match_3 (fun _ => α) x E K = E e := by subst hx; rfl
+theorem unitV_ok {α : Type} {x : Except DbErr Unit} {v : Unit} (hx : x = .ok v) (E : DbErr → α) (K : Unit → α) :
+    handleV.match_1 (fun _ => α) x E K = K v := by subst hx; rfl
+theorem unitV_err {α : Type} {x : Except DbErr Unit} {e : DbErr} (hx : x = .error e) (E : DbErr → α) (K : Unit → α) :
+    handleV.match_1 (fun _ => α) x E K = E e := by subst hx; rfl
+
+theorem handleV_request_ack (S : Store σ) (c : SrvCfg) (db : IPDB σ) (rx : Rx) (o : HOracle)
+    {db1 db2 db3 : IPDB σ} {duid : Duid} {want : Ip4} {lease : Nat} {v : Unit}
+    (hg : getDuid S db o.t0 rx.msg.chaddr (decodeOptions rx.msg.options).clientIdentifier = (db1, duid))
+    (htodo : todo c db1 rx = .request want)
+    (hl : db1.lookupByDuid S o.t1 duid = (db2, .ok lease)) (hw : want.toNat = lease) (hp : o.probeFree = true)
+    (hu : db2.updateClient S o.t2 (some (Ip4.ofNat lease)) duid c.leaseNs = (db3, .ok v)) :
+    handleV S c db rx o = (db3, .ack lease) := by
+  delta handleV
+  refine Eq.trans (todoV_request (want := want) ?h1 _ _ _) ?_
+  case h1 => rw [hg]; exact htodo
+  refine Eq.trans (natV_ok (a := lease) ?h2 _ _) ?_
+  case h2 => rw [hg, hl]
+  refine Eq.trans (if_neg ?h3) ?_
+  case h3 => exact fun hne => hne hw
+  refine Eq.trans (if_neg ?h4) ?_
+  case h4 => exact fun hne => hne hp
+  refine Eq.trans (unitV_ok (v := v) ?h5 _ _) ?_
+  case h5 => rw [hg, hl, hu]
+  rw [hg, hl, hu]
+
+theorem handleV_discover_offer (S : Store σ) (c : SrvCfg) (db : IPDB σ) (rx : Rx) (o : HOracle)
+    {db1 db2 db3 : IPDB σ} {duid : Duid} {a : Nat} {v : Unit}
+    (hg : getDuid S db o.t0 rx.msg.chaddr (decodeOptions rx.msg.options).clientIdentifier = (db1, duid))
+    (htodo : todo c db1 rx = .discover)
+    (hf : db1.findIP S o.t1 (decodeOptions rx.msg.options).requestedIP duid o.perm o.iters = (db2, .ok a))
+    (hu : db2.updateClient S o.t2 (some (Ip4.ofNat a)) duid offerHoldNs = (db3, .ok v)) :
+    handleV S c db rx o = (db3, .offer a) := by
+  delta handleV
+  refine Eq.trans (todoV_discover ?h1 _ _ _) ?_
+  case h1 => rw [hg]; exact htodo
+  refine Eq.trans (natV_ok (a := a) ?h2 _ _) ?_
+  case h2 => rw [hg, hf]
+  refine Eq.trans (unitV_ok (v := v) ?h3 _ _) ?_
+  case h3 => rw [hg, hf, hu]
+  rw [hg, hf, hu]
+
+theorem handleV_discover_none (S : Store σ) (c : SrvCfg) (db : IPDB σ) (rx : Rx) (o : HOracle)
+    {db1 db2 : IPDB σ} {duid : Duid} {e : DbErr}
+    (hg : getDuid S db o.t0 rx.msg.chaddr (decodeOptions rx.msg.options).clientIdentifier = (db1, duid))
+    (htodo : todo c db1 rx = .discover)
+    (hf : db1.findIP S o.t1 (decodeOptions rx.msg.options).requestedIP duid o.perm o.iters = (db2, .error e)) :
+    handleV S c db rx o = (db2, .silent) := by
+  delta handleV
+  refine Eq.trans (todoV_discover ?h1 _ _ _) ?_
+  case h1 => rw [hg]; exact htodo
+  refine Eq.trans (natV_err (e := e) ?h2 _ _) ?_
+  case h2 => rw [hg, hf]
+  rw [hg, hf]
+
+theorem inManagedRange_of_toUip {db : IPDB σ} {ip : Option Ip4} {n : Nat} (h : db.toUip ip = .ok n) :
+    db.inManagedRange ip = true := by
+  unfold IPDB.inManagedRange
+  rw [h]
+
+theorem inManagedRange_of {db : IPDB σ} {i : Ip4} (h1 : db.netFrom ≤ i.toNat) (h2 : i.toNat ≤ db.netTo) :
+    db.inManagedRange (some i) = true :=
+  inManagedRange_of_toUip (toUip_ok h1 h2)
+
+theorem toUip_ofNat {db : IPDB σ} {a : Nat} (hlt : a < 4294967296) (h1 : db.netFrom ≤ a) (h2 : a ≤ db.netTo) :
+    db.toUip (some (Ip4.ofNat a)) = .ok a := by
+  have e := Ip4.toNat_ofNat hlt
+  generalize Ip4.ofNat a = i at e
+  subst e
+  exact toUip_ok h1 h2
+
+theorem todo_request {c : SrvCfg} {rx : Rx} {db : IPDB σ} {want : Ip4}
+    (hreq : (decodeOptions rx.msg.options).messageType = 3)
+    (hmac : rx.msg.chaddr ≠ c.selfMac) (hself : (decodeOptions rx.msg.options).requestedIP ≠ some c.selfIp)
+    (hw : desired (classify c.selfIp rx.dst (decodeOptions rx.msg.options).serverIdentifier
+            (decodeOptions rx.msg.options).requestedIP) rx.src (decodeOptions rx.msg.options).requestedIP = some want)
+    (hin : db.inManagedRange (some want) = true) : todo c db rx = .request want := by
+  unfold todo
+  simp only
+  rw [if_neg (Ne.symm hmac), if_neg hself, if_neg (by rw [hreq]; decide), if_pos hreq, hw]
+  simp only
+  rw [if_pos hin]
+
+end Paths
+
+theorem offer_then_ack (c : SrvCfg) (b : Boot) (evs : List Ev) (sys : Sys Table) (h : ReachableT c b evs sys)
+    (_hl : 0 ≤ c.leaseNs) (s : Sent) (hs : s ∈ sys.sent) (hk : s.kind ≠ .nak)
+    (rx : Rx) (o : HOracle) (hck : HOracle.ClockOk o (lastClock b evs))
+    (hreq : (decodeOptions rx.msg.options).messageType = 3)
+    (hmac : rx.msg.chaddr ≠ c.selfMac) (hself : (decodeOptions rx.msg.options).requestedIP ≠ some c.selfIp)
+    (hd : (getDuid tableStore sys.db o.t0 rx.msg.chaddr (decodeOptions rx.msg.options).clientIdentifier).2 = s.duid)
+    (hw : desired (classify c.selfIp rx.dst (decodeOptions rx.msg.options).serverIdentifier (decodeOptions rx.msg.options).requestedIP)
+            rx.src (decodeOptions rx.msg.options).requestedIP = some (Ip4.ofNat s.addr))
+    (ht : o.t2 ≤ s.t + s.ttl c) (hp : o.probeFree = true) :
+    (handleV tableStore c sys.db rx o).2 = .ack s.addr := by
+  obtain ⟨k0, k1, -, -, -, k2⟩ := hck
+  have hi := reach_inv h
+  have so := hi.sent.ok s hs hk
+  obtain ⟨x1, -, i1, -, -, -, -, ld1⟩ := grant_binding h hs hk (t := o.t1) (by omega) (by omega)
+  obtain ⟨x2, m2, i2, d2, -, l2, -, -⟩ := grant_binding h hs hk (t := o.t2) (by omega) ht
+  have hlt : s.addr < 4294967296 := so.net.2.2
+  have hn1 : sys.db.netFrom ≤ s.addr := by rw [hi.db.nf]; exact so.net.1
+  have hn2 : s.addr ≤ sys.db.netTo := by rw [hi.db.nt]; exact so.net.2.1
+  have hto := Ip4.toNat_ofNat hlt
+  have hg : getDuid tableStore sys.db o.t0 rx.msg.chaddr (decodeOptions rx.msg.options).clientIdentifier =
+      (sys.db, s.duid) := Prod.ext (getDuid_table_fst _ _ _ _) hd
+  have htodo : todo c sys.db rx = .request (Ip4.ofNat s.addr) :=
+    todo_request hreq hmac hself hw (inManagedRange_of (by rw [hto]; exact hn1) (by rw [hto]; exact hn2))
+  have hlk : sys.db.lookupByDuid tableStore o.t1 s.duid = (sys.db, .ok s.addr) := by
+    rw [lookupByDuid_table, ld1]
+    simp only [i1]
+  have hok : (sys.db.updateClient tableStore o.t2 (some (Ip4.ofNat s.addr)) s.duid c.leaseNs).2 = .ok () := by
+    rw [update_ok_iff _ _ _ _ _ (exclusive_mono hi.db.excl (by omega))]
+    exact ⟨s.addr, toUip_ofNat hlt hn1 hn2, Or.inl ⟨x2, m2, l2, i2, d2⟩⟩
+  rw [handleV_request_ack tableStore c sys.db rx o hg htodo hlk hto hp (pair_of_snd _ _ hok)]
+
+theorem not_derailed (c : SrvCfg) (b : Boot) (evs : List Ev) (sys : Sys Table) (h : ReachableT c b evs sys)
+    (hl : 0 ≤ c.leaseNs) (s : Sent) (hs : s ∈ sys.sent) (hk : s.kind = .offer)
+    (rx : Rx) (o : HOracle) (hck : HOracle.ClockOk o (lastClock b evs))
+    (hreq : (decodeOptions rx.msg.options).messageType = 3)
+    (hmac : rx.msg.chaddr ≠ c.selfMac) (hself : (decodeOptions rx.msg.options).requestedIP ≠ some c.selfIp)
+    (hd : (getDuid tableStore sys.db o.t0 rx.msg.chaddr (decodeOptions rx.msg.options).clientIdentifier).2 = s.duid)
+    (hw : desired (classify c.selfIp rx.dst (decodeOptions rx.msg.options).serverIdentifier (decodeOptions rx.msg.options).requestedIP)
+            rx.src (decodeOptions rx.msg.options).requestedIP = some (Ip4.ofNat s.addr))
+    (ht : o.t2 ≤ s.t + offerHoldNs) (hp : o.probeFree = true) :
+    (handleV tableStore c sys.db rx o).2 = .ack s.addr := by
+  have httl : s.ttl c = offerHoldNs := by unfold Sent.ttl; rw [hk]
+  exact offer_then_ack c b evs sys h hl s hs (by rw [hk]; decide) rx o hck hreq hmac hself hd hw (by rw [httl]; exact ht) hp
+
+theorem discover_while_bound (c : SrvCfg) (b : Boot) (evs : List Ev) (sys : Sys Table) (h : ReachableT c b evs sys)
+    (_hl : 0 ≤ c.leaseNs) (s : Sent) (hs : s ∈ sys.sent) (hk : s.kind ≠ .nak)
+    (rx : Rx) (o : HOracle) (hck : HOracle.ClockOk o (lastClock b evs)) (hwf : WellFormedDiscover c rx)
+    (hd : (getDuid tableStore sys.db o.t0 rx.msg.chaddr (decodeOptions rx.msg.options).clientIdentifier).2 = s.duid)
+    (ht : o.t2 ≤ s.t + s.ttl c) :
+    (handleV tableStore c sys.db rx o).2 = .offer s.addr := by
+  obtain ⟨k0, k1, -, -, -, k2⟩ := hck
+  have hi := reach_inv h
+  have so := hi.sent.ok s hs hk
+  obtain ⟨x1, -, i1, -, -, -, -, ld1⟩ := grant_binding h hs hk (t := o.t1) (by omega) (by omega)
+  obtain ⟨x2, m2, i2, d2, -, l2, -, -⟩ := grant_binding h hs hk (t := o.t2) (by omega) ht
+  have hlt : s.addr < 4294967296 := so.net.2.2
+  have hn1 : sys.db.netFrom ≤ s.addr := by rw [hi.db.nf]; exact so.net.1
+  have hn2 : s.addr ≤ sys.db.netTo := by rw [hi.db.nt]; exact so.net.2.1
+  have hg : getDuid tableStore sys.db o.t0 rx.msg.chaddr (decodeOptions rx.msg.options).clientIdentifier =
+      (sys.db, s.duid) := Prod.ext (getDuid_table_fst _ _ _ _) hd
+  have hf : sys.db.findIP tableStore o.t1 (decodeOptions rx.msg.options).requestedIP s.duid o.perm o.iters =
+      (sys.db, .ok s.addr) := by
+    refine Prod.ext (findIP_table_fst _ _ _ _ _ _) ?_
+    rw [find_existing _ _ _ _ _ _ x1 ld1, i1]
+  have hok : (sys.db.updateClient tableStore o.t2 (some (Ip4.ofNat s.addr)) s.duid offerHoldNs).2 = .ok () := by
+    rw [update_ok_iff _ _ _ _ _ (exclusive_mono hi.db.excl (by omega))]
+    exact ⟨s.addr, toUip_ofNat hlt hn1 hn2, Or.inl ⟨x2, m2, l2, i2, d2⟩⟩
+  rw [handleV_discover_offer tableStore c sys.db rx o hg (todo_discover hwf _) hf (pair_of_snd _ _ hok)]
+
+theorem toUip_ok_inv {σ : Type} {db : IPDB σ} {ip : Option Ip4} {n : Nat} (h : db.toUip ip = .ok n) :
+    n < 4294967296 ∧ db.netFrom ≤ n ∧ n ≤ db.netTo := by
+  cases ip with
+  | none => cases h
+  | some i =>
+    obtain ⟨e, h1, h2⟩ := toUip_some h
+    exact ⟨by rw [e]; exact Ip4.toNat_lt i, h1, h2⟩
+
+theorem liveIp_none_mono {T : Table} {t t' : Int} {a : Nat} (h : T.liveIp t a = none) (htt : t ≤ t') :
+    T.liveIp t' a = none :=
+  liveIp_none_of fun b hb hl => liveIp_none h b hb (live_anti hl htt)
+
+theorem liveDuid_none_mono {T : Table} {t t' : Int} {d : Duid} (h : T.liveDuid t d = none) (htt : t ≤ t') :
+    T.liveDuid t' d = none :=
+  liveDuid_none_of fun b hb hl => liveDuid_none h b hb (live_anti hl htt)
+
+theorem offerHold_nonneg : 0 ≤ offerHoldNs := by unfold offerHoldNs; omega
+
+theorem suggestion_honoured (c : SrvCfg) (db : IPDB Table) (rx : Rx) (o : HOracle) (n : Nat)
+    (hx : db.s.Exclusive o.t0) (hck : o.t0 ≤ o.t1 ∧ o.t1 ≤ (o.iters 0).now ∧ (o.iters 0).now ≤ o.t2)
+    (hwf : WellFormedDiscover c rx)
+    (hnb : let g := getDuid tableStore db o.t0 rx.msg.chaddr (decodeOptions rx.msg.options).clientIdentifier
+           ∀ t, o.t0 ≤ t → g.1.s.liveDuid t g.2 = none)
+    (hen : ¬ (db.dynTo = 0 ∧ db.dynFrom = 0))
+    (hs : db.toUip (decodeOptions rx.msg.options).requestedIP = .ok n)
+    (hr : db.dynFrom ≤ n ∧ n ≤ db.dynTo ∧ db.dynTo < 4294967296)
+    (hu : ∀ t, o.t0 ≤ t → db.s.liveIp t n = none) (hv : IPDB.validUip n = true)
+    (hf : (o.iters 0).free = true ∧ (o.iters 0).cancelled = false) :
+    (handleV tableStore c db rx o).2 = .offer n := by
+  obtain ⟨k1, k2, k3⟩ := hck
+  have hnb' : ∀ t, o.t0 ≤ t → db.s.liveDuid t
+      (getDuid tableStore db o.t0 rx.msg.chaddr (decodeOptions rx.msg.options).clientIdentifier).2 = none := by
+    intro t ht
+    have := hnb t ht
+    rwa [getDuid_table_fst] at this
+  generalize hgd : (getDuid tableStore db o.t0 rx.msg.chaddr (decodeOptions rx.msg.options).clientIdentifier).2 = d at hnb'
+  have hg : getDuid tableStore db o.t0 rx.msg.chaddr (decodeOptions rx.msg.options).clientIdentifier = (db, d) :=
+    Prod.ext (getDuid_table_fst _ _ _ _) hgd
+  obtain ⟨hlt, hn1, hn2⟩ := toUip_ok_inv hs
+  have hfind : db.findIP tableStore o.t1 (decodeOptions rx.msg.options).requestedIP d o.perm o.iters = (db, .ok n) := by
+    refine Prod.ext (findIP_table_fst _ _ _ _ _ _) ?_
+    exact find_suggestion_first db o.t1 _ d o.perm o.iters n (hnb' _ k1) hen hs hr
+      ⟨hu _ k1, hu _ (by omega)⟩ hv hf
+  have hok : (db.updateClient tableStore o.t2 (some (Ip4.ofNat n)) d offerHoldNs).2 = .ok () := by
+    rw [update_ok_iff _ _ _ _ _ (exclusive_mono hx (by omega))]
+    exact ⟨n, toUip_ofNat hlt hn1 hn2, Or.inr ⟨hu _ (by omega), hnb' _ (by omega), offerHold_nonneg⟩⟩
+  rw [handleV_discover_offer tableStore c db rx o hg (todo_discover hwf _) hfind (pair_of_snd _ _ hok)]
+
+/-- `C05.silent_only_if_exhausted` as stated is false for a database whose dynamic range is not inside its network
+(`FindIP` picks a free address, `UpdateClient` rejects it as `notInRange`, the handler stays silent although no
+address was examined and found unusable); with the range inside the network — which `server.New` guarantees
+(`setDynamicRange` checks both ends with `toUip`; the default range is the network) — it holds. -/
+theorem silent_only_if_exhausted_repaired (c : SrvCfg) (db : IPDB Table) (rx : Rx) (o : HOracle)
+    (hx : db.s.Exclusive o.t0) (hwf : WellFormedDiscover c rx)
+    (hnb : let g := getDuid tableStore db o.t0 rx.msg.chaddr (decodeOptions rx.msg.options).clientIdentifier
+           g.1.s.liveDuid o.t1 g.2 = none)
+    (hperm : List.Perm o.perm (List.range (1 + db.dynTo - db.dynFrom)))
+    (hr : db.dynFrom ≤ db.dynTo ∧ db.dynTo < 4294967296) (hen : ¬ (db.dynTo = 0 ∧ db.dynFrom = 0))
+    (hnet : db.netFrom ≤ db.dynFrom ∧ db.dynTo ≤ db.netTo)
+    (hnc : ∀ i, (o.iters i).cancelled = false)
+    (hck : o.t0 ≤ o.t1 ∧ o.t1 ≤ (o.iters 0).now ∧ (∀ i, (o.iters i).now ≤ (o.iters (i + 1)).now) ∧ ∀ i, (o.iters i).now ≤ o.t2)
+    (hsil : (handleV tableStore c db rx o).2 = .silent) :
+    ∀ a, db.dynFrom ≤ a → a ≤ db.dynTo →
+      ∃ i, (db.s.liveIp (o.iters i).now a).isSome = true ∨ IPDB.validUip a = false ∨ (o.iters i).free = false := by
+  obtain ⟨k1, k2, -, k4⟩ := hck
+  have hnb' : db.s.liveDuid o.t1
+      (getDuid tableStore db o.t0 rx.msg.chaddr (decodeOptions rx.msg.options).clientIdentifier).2 = none := by
+    have := hnb
+    simp only [getDuid_table_fst] at this
+    exact this
+  generalize hgd : (getDuid tableStore db o.t0 rx.msg.chaddr (decodeOptions rx.msg.options).clientIdentifier).2 = d at hnb'
+  have hg : getDuid tableStore db o.t0 rx.msg.chaddr (decodeOptions rx.msg.options).clientIdentifier = (db, d) :=
+    Prod.ext (getDuid_table_fst _ _ _ _) hgd
+  cases hres : (db.findIP tableStore o.t1 (decodeOptions rx.msg.options).requestedIP d o.perm o.iters).2 with
+  | error e =>
+    have he : e = .noFreeIp := by
+      rw [findIP_table_none _ _ _ _ _ _ hnb', if_neg hen] at hres
+      split at hres
+      · cases hres
+      · cases hres; rfl
+    subst he
+    exact find_fails_only_if_exhausted db o.t1 _ d o.perm o.iters hnb' hperm hr hnc hres
+  | ok a =>
+    exfalso
+    have hp : ∀ v ∈ o.perm, v ≤ db.dynTo - db.dynFrom := by
+      intro v hv
+      have := List.mem_range.1 (hperm.mem_iff.1 hv)
+      omega
+    obtain ⟨a1, a2, -, i, -, -, hfree⟩ := find_result_eligible db o.t1 _ d o.perm o.iters a hnb' hp hr hres
+    have hfind : db.findIP tableStore o.t1 (decodeOptions rx.msg.options).requestedIP d o.perm o.iters = (db, .ok a) :=
+      Prod.ext (findIP_table_fst _ _ _ _ _ _) hres
+    have h02 : o.t0 ≤ o.t2 := by have := k4 0; omega
+    have hok : (db.updateClient tableStore o.t2 (some (Ip4.ofNat a)) d offerHoldNs).2 = .ok () := by
+      rw [update_ok_iff _ _ _ _ _ (exclusive_mono hx h02)]
+      exact ⟨a, toUip_ofNat (by omega) (by omega) (by omega),
+        Or.inr ⟨liveIp_none_mono hfree (k4 i), liveDuid_none_mono hnb' (by have := k4 0; omega), offerHold_nonneg⟩⟩
+    rw [handleV_discover_offer tableStore c db rx o hg (todo_discover hwf _) hfind (pair_of_snd _ _ hok)] at hsil
+    cases hsil
+
+/-! ### The counterexample to `C05.silent_only_if_exhausted` as stated -/
+
+def ceCfg : SrvCfg := { selfIp := ⟨0, 0, 0, 15⟩, selfMac := [1, 1, 1, 1, 1, 1], leaseNs := 3600000000000, mask := [255, 255, 255, 0] }
+/-- Network 10..20, dynamic range 1..2 (outside the network), empty table. -/
+def ceDb : IPDB Table := { netFrom := 10, netTo := 20, dynFrom := 1, dynTo := 2, s := [] }
+def ceRx : Rx :=
+  { src := Ip4.zero, dst := Ip4.bcast,
+    msg := { op := 1, htype := 1, hops := 0, xid := 7, secs := 0, flags := 0
+             ciaddr := none, yiaddr := none, siaddr := none, giaddr := none
+             chaddr := [2, 2, 2, 2, 2, 2], sname := [], file := [], cookie := 0x63825363
+             options := [optType 1] } }
+def ceO : HOracle := { t0 := 0, t1 := 0, perm := [0, 1], t2 := 0 }
+
+theorem ce_silent : (handleV tableStore ceCfg ceDb ceRx ceO).2 = .silent := by decide
+
+theorem silent_only_if_exhausted_false :
+    ¬ ∀ (c : SrvCfg) (db : IPDB Table) (rx : Rx) (o : HOracle)
+      (_hx : db.s.Exclusive o.t0) (_hwf : WellFormedDiscover c rx)
+      (_hnb : let g := getDuid tableStore db o.t0 rx.msg.chaddr (decodeOptions rx.msg.options).clientIdentifier
+             g.1.s.liveDuid o.t1 g.2 = none)
+      (_hperm : List.Perm o.perm (List.range (1 + db.dynTo - db.dynFrom)))
+      (_hr : db.dynFrom ≤ db.dynTo ∧ db.dynTo < 4294967296) (_hen : ¬ (db.dynTo = 0 ∧ db.dynFrom = 0))
+      (_hnc : ∀ i, (o.iters i).cancelled = false)
+      (_hck : o.t0 ≤ o.t1 ∧ o.t1 ≤ (o.iters 0).now ∧ (∀ i, (o.iters i).now ≤ (o.iters (i + 1)).now) ∧ ∀ i, (o.iters i).now ≤ o.t2)
+      (_hsil : (handleV tableStore c db rx o).2 = .silent),
+      ∀ a, db.dynFrom ≤ a → a ≤ db.dynTo →
+        ∃ i, (db.s.liveIp (o.iters i).now a).isSome = true ∨ IPDB.validUip a = false ∨ (o.iters i).free = false := by
+  intro H
+  have hx : ceDb.s.Exclusive ceO.t0 := by intro b hb; cases hb
+  have hwf : WellFormedDiscover ceCfg ceRx := by unfold WellFormedDiscover; decide
+  have hnb : (let g := getDuid tableStore ceDb ceO.t0 ceRx.msg.chaddr (decodeOptions ceRx.msg.options).clientIdentifier
+      g.1.s.liveDuid ceO.t1 g.2 = none) := by
+    simp only [getDuid_table_fst]
+    rfl
+  obtain ⟨i, h⟩ := H ceCfg ceDb ceRx ceO hx hwf hnb (List.Perm.refl _) (by decide) (by decide) (fun _ => rfl)
+    ⟨Int.le_refl _, Int.le_refl _, fun _ => Int.le_refl _, fun _ => Int.le_refl _⟩ ce_silent 1 (by decide) (by decide)
+  rcases h with h | h | h
+  · cases h
+  · cases h
+  · cases h
+
+/-! ## C09: the sequential handler is a run of the system -/
+
+section Seq
+variable {σ : Type}
+
+theorem todoH_drop {α : Type} {x : Todo} (hx : x = .drop) (A : Unit → α) (B : Unit → α) (C : Ip4 → α) :
+    instReprTodo.repr.match_1 (fun _ => α) x A B C = A () := by subst hx; rfl
+theorem todoH_request {α : Type} {x : Todo} {want : Ip4} (hx : x = .request want) (A : Unit → α) (B : Unit → α)
+    (C : Ip4 → α) : instReprTodo.repr.match_1 (fun _ => α) x A B C = C want := by subst hx; rfl
+theorem natH_err {α : Type} {x : Except DbErr Nat} {e : DbErr} (hx : x = .error e) (E : DbErr → α) (K : Nat → α) :
+    handle.match_3 (fun _ => α) x E K = E e := by subst hx; rfl
+theorem unitH_err {α : Type} {x : Except DbErr Unit} {e : DbErr} (hx : x = .error e) (E : DbErr → α) (K : Unit → α) :
+    handle.match_1 (fun _ => α) x E K = E e := by subst hx; rfl
+
+theorem handle_drop (S : Store σ) (c : SrvCfg) (db : IPDB σ) (rx : Rx) (o : HOracle) {db1 : IPDB σ} {duid : Duid}
+    (hg : getDuid S db o.t0 rx.msg.chaddr (decodeOptions rx.msg.options).clientIdentifier = (db1, duid))
+    (htodo : todo c db1 rx = .drop) : handle S c db rx o = (db1, none) := by
+  delta handle
+  refine Eq.trans (todoH_drop ?h1 _ _ _) ?_
+  case h1 => rw [hg]; exact htodo
+  rw [hg]
+
+theorem handle_discover_none (S : Store σ) (c : SrvCfg) (db : IPDB σ) (rx : Rx) (o : HOracle)
+    {db1 db2 : IPDB σ} {duid : Duid} {e : DbErr}
+    (hg : getDuid S db o.t0 rx.msg.chaddr (decodeOptions rx.msg.options).clientIdentifier = (db1, duid))
+    (htodo : todo c db1 rx = .discover)
+    (hf : db1.findIP S o.t1 (decodeOptions rx.msg.options).requestedIP duid o.perm o.iters = (db2, .error e)) :
+    handle S c db rx o = (db2, none) := by
+  delta handle
+  refine Eq.trans (todo_match_discover ?h1 _ _ _) ?_
+  case h1 => rw [hg]; exact htodo
+  refine Eq.trans (natH_err (e := e) ?h2 _ _) ?_
+  case h2 => rw [hg, hf]
+  rw [hg, hf]
+
+theorem handle_discover_uerr (S : Store σ) (c : SrvCfg) (db : IPDB σ) (rx : Rx) (o : HOracle)
+    {db1 db2 db3 : IPDB σ} {duid : Duid} {a : Nat} {e : DbErr}
+    (hg : getDuid S db o.t0 rx.msg.chaddr (decodeOptions rx.msg.options).clientIdentifier = (db1, duid))
+    (htodo : todo c db1 rx = .discover)
+    (hf : db1.findIP S o.t1 (decodeOptions rx.msg.options).requestedIP duid o.perm o.iters = (db2, .ok a))
+    (hu : db2.updateClient S o.t2 (some (Ip4.ofNat a)) duid offerHoldNs = (db3, .error e)) :
+    handle S c db rx o = (db3, none) := by
+  delta handle
+  refine Eq.trans (todo_match_discover ?h1 _ _ _) ?_
+  case h1 => rw [hg]; exact htodo
+  refine Eq.trans (nat_match_ok (a := a) ?h2 _ _) ?_
+  case h2 => rw [hg, hf]
+  refine Eq.trans (unitH_err (e := e) ?h3 _ _) ?_
+  case h3 => rw [hg, hf, hu]
+  rw [hg, hf, hu]
+
+theorem handle_request_lerr (S : Store σ) (c : SrvCfg) (db : IPDB σ) (rx : Rx) (o : HOracle)
+    {db1 db2 : IPDB σ} {duid : Duid} {want : Ip4} {e : DbErr}
+    (hg : getDuid S db o.t0 rx.msg.chaddr (decodeOptions rx.msg.options).clientIdentifier = (db1, duid))
+    (htodo : todo c db1 rx = .request want)
+    (hl : db1.lookupByDuid S o.t1 duid = (db2, .error e)) :
+    handle S c db rx o = (db2, some (nakFrame c rx.msg)) := by
+  delta handle
+  refine Eq.trans (todoH_request (want := want) ?h1 _ _ _) ?_
+  case h1 => rw [hg]; exact htodo
+  refine Eq.trans (natH_err (e := e) ?h2 _ _) ?_
+  case h2 => rw [hg, hl]
+  rw [hg, hl]
+
+theorem handle_request_nak (S : Store σ) (c : SrvCfg) (db : IPDB σ) (rx : Rx) (o : HOracle)
+    {db1 db2 : IPDB σ} {duid : Duid} {want : Ip4} {lease : Nat}
+    (hg : getDuid S db o.t0 rx.msg.chaddr (decodeOptions rx.msg.options).clientIdentifier = (db1, duid))
+    (htodo : todo c db1 rx = .request want)
+    (hl : db1.lookupByDuid S o.t1 duid = (db2, .ok lease)) (hw : ¬ (want.toNat = lease ∧ o.probeFree = true)) :
+    handle S c db rx o = (db2, some (nakFrame c rx.msg)) := by
+  delta handle
+  refine Eq.trans (todoH_request (want := want) ?h1 _ _ _) ?_
+  case h1 => rw [hg]; exact htodo
+  refine Eq.trans (nat_match_ok (a := lease) ?h2 _ _) ?_
+  case h2 => rw [hg, hl]
+  by_cases h1 : want.toNat = lease
+  · refine Eq.trans (if_neg (fun hne => hne h1)) ?_
+    refine Eq.trans (if_pos (fun hpf => hw ⟨h1, hpf⟩)) ?_
+    rw [hg, hl]
+  · refine Eq.trans (if_pos h1) ?_
+    rw [hg, hl]
+
+theorem handle_request_uerr (S : Store σ) (c : SrvCfg) (db : IPDB σ) (rx : Rx) (o : HOracle)
+    {db1 db2 db3 : IPDB σ} {duid : Duid} {want : Ip4} {lease : Nat} {e : DbErr}
+    (hg : getDuid S db o.t0 rx.msg.chaddr (decodeOptions rx.msg.options).clientIdentifier = (db1, duid))
+    (htodo : todo c db1 rx = .request want)
+    (hl : db1.lookupByDuid S o.t1 duid = (db2, .ok lease)) (hw : want.toNat = lease) (hp : o.probeFree = true)
+    (hu : db2.updateClient S o.t2 (some (Ip4.ofNat lease)) duid c.leaseNs = (db3, .error e)) :
+    handle S c db rx o = (db3, none) := by
+  delta handle
+  refine Eq.trans (todoH_request (want := want) ?h1 _ _ _) ?_
+  case h1 => rw [hg]; exact htodo
+  refine Eq.trans (nat_match_ok (a := lease) ?h2 _ _) ?_
+  case h2 => rw [hg, hl]
+  refine Eq.trans (if_neg (fun hne => hne hw)) ?_
+  refine Eq.trans (if_neg (fun hne => hne hp)) ?_
+  refine Eq.trans (unitH_err (e := e) ?h5 _ _) ?_
+  case h5 => rw [hg, hl, hu]
+  rw [hg, hl, hu]
+
+theorem handle_request_ack (S : Store σ) (c : SrvCfg) (db : IPDB σ) (rx : Rx) (o : HOracle)
+    {db1 db2 db3 : IPDB σ} {duid : Duid} {want : Ip4} {lease : Nat} {v : Unit}
+    (hg : getDuid S db o.t0 rx.msg.chaddr (decodeOptions rx.msg.options).clientIdentifier = (db1, duid))
+    (htodo : todo c db1 rx = .request want)
+    (hl : db1.lookupByDuid S o.t1 duid = (db2, .ok lease)) (hw : want.toNat = lease) (hp : o.probeFree = true)
+    (hu : db2.updateClient S o.t2 (some (Ip4.ofNat lease)) duid c.leaseNs = (db3, .ok v)) :
+    handle S c db rx o = (db3, some (leaseFrame c .ack rx.msg (Ip4.ofNat lease))) := by
+  delta handle
+  refine Eq.trans (todoH_request (want := want) ?h1 _ _ _) ?_
+  case h1 => rw [hg]; exact htodo
+  refine Eq.trans (nat_match_ok (a := lease) ?h2 _ _) ?_
+  case h2 => rw [hg, hl]
+  refine Eq.trans (if_neg (fun hne => hne hw)) ?_
+  refine Eq.trans (if_neg (fun hne => hne hp)) ?_
+  refine Eq.trans (unit_match_ok (v := v) ?h5 _ _) ?_
+  case h5 => rw [hg, hl, hu]
+  rw [hg, hl, hu]
+
+theorem run1 (S : Store σ) (c : SrvCfg) (s : Sys σ) (e : Ev) : Sys.run S c s [e] = Sys.step S c s e := rfl
+
+theorem run3 (S : Store σ) (c : SrvCfg) (s : Sys σ) (e₁ e₂ e₃ : Ev) :
+    Sys.run S c s [e₁, e₂, e₃] = Sys.step S c (Sys.step S c (Sys.step S c s e₁) e₂) e₃ := rfl
+
+theorem handle_is_a_run_gen (S : Store σ) (c : SrvCfg) (db : IPDB σ) (b : Bytes) (rx : Rx) (o : HOracle) (tEnd : Int)
+    (hrx : rxChain b = .ok (some rx)) :
+    ∃ evs : List Ev, evs.length ≤ 3 ∧
+      (Sys.run S c { db := db } evs).db = (handle S c db rx o).1 ∧
+      ((Sys.run S c { db := db } evs).sent.map (·.frame)) = (handle S c db rx o).2.toList := by
+  have h1 := step_recv_some S c { db := db } o.t0 b hrx
+  simp only [] at h1
+  generalize hg : getDuid S db o.t0 rx.msg.chaddr (decodeOptions rx.msg.options).clientIdentifier = g at h1
+  obtain ⟨db1, duid⟩ := g
+  unfold recvResult at h1
+  simp only [] at h1
+  generalize hk0 : (o.t0, DbOp.lookupByDuid (sduid rx.msg.chaddr)) = k0 at h1
+  cases htd : todo c db1 rx with
+  | drop =>
+    rw [htd] at h1
+    refine ⟨[.recv o.t0 b], by simp, ?_⟩
+    rw [run1, h1, handle_drop S c db rx o hg htd]
+    exact ⟨rfl, rfl⟩
+  | discover =>
+    rw [htd] at h1
+    have h2 := step_find_some S c
+      ({ db := db1, pend := [.a1 rx duid], sent := [], calls := [k0] } : Sys σ) 0 o.t1 o.perm o.iters tEnd
+      (rx := rx) (duid := duid) rfl
+    simp only [] at h2
+    generalize hf : db1.findIP S o.t1 (decodeOptions rx.msg.options).requestedIP duid o.perm o.iters = f at h2
+    obtain ⟨db2, r⟩ := f
+    generalize hk1 : (o.t1, DbOp.findIP (decodeOptions rx.msg.options).requestedIP duid o.perm o.iters tEnd) = k1 at h2
+    refine ⟨[.recv o.t0 b, .find 0 o.t1 o.perm o.iters tEnd, .hold 0 o.t2], by simp, ?_⟩
+    rw [run3, h1]
+    cases r with
+    | error e =>
+      have h2' : Sys.step S c { db := db1, pend := [] ++ [.a1 rx duid], sent := [], calls := [k0] }
+          (.find 0 o.t1 o.perm o.iters tEnd) = { db := db2, pend := [.done], sent := [], calls := [k1, k0] } := by
+        rw [← hk1]; exact h2
+      rw [h2', step_hold_none S c _ 0 o.t2 (by intro rx duid a h; simp at h),
+        handle_discover_none S c db rx o hg htd hf]
+      exact ⟨rfl, rfl⟩
+    | ok a =>
+      have h2' : Sys.step S c { db := db1, pend := [] ++ [.a1 rx duid], sent := [], calls := [k0] }
+          (.find 0 o.t1 o.perm o.iters tEnd) = { db := db2, pend := [.a2 rx duid a], sent := [], calls := [k1, k0] } := by
+        rw [← hk1]; exact h2
+      have h3 := step_hold_some S c
+        ({ db := db2, pend := [.a2 rx duid a], sent := [], calls := [k1, k0] } : Sys σ) 0 o.t2
+        (rx := rx) (duid := duid) (a := a) rfl
+      simp only [] at h3
+      generalize hu : db2.updateClient S o.t2 (some (Ip4.ofNat a)) duid offerHoldNs = u at h3
+      obtain ⟨db3, ru⟩ := u
+      rw [h2', h3]
+      cases ru with
+      | error e =>
+        rw [handle_discover_uerr S c db rx o hg htd hf hu]
+        exact ⟨rfl, rfl⟩
+      | ok v =>
+        rw [handle_discover S c db rx o hg htd hf hu]
+        exact ⟨rfl, rfl⟩
+  | request want =>
+    rw [htd] at h1
+    simp only [List.nil_append] at h1
+    have h2 := step_look_some S c
+      ({ db := db1, pend := [.b1 rx duid want], sent := [], calls := [k0] } : Sys σ) 0 o.t1 o.probeFree
+      (rx := rx) (duid := duid) (want := want) rfl
+    simp only [] at h2
+    generalize hl : db1.lookupByDuid S o.t1 duid = l at h2
+    obtain ⟨db2, r⟩ := l
+    refine ⟨[.recv o.t0 b, .look 0 o.t1 o.probeFree, .lease 0 o.t2], by simp, ?_⟩
+    rw [run3, h1, h2]
+    unfold lookResult
+    have hnakstate : ∀ s : Sys σ,
+        s = { db := db2, pend := [.done], sent := [⟨o.t1, .nak, 0, duid, rx, nakFrame c rx.msg⟩],
+              calls := [(o.t1, DbOp.lookupByDuid duid), k0] } →
+        (Sys.step S c s (.lease 0 o.t2)).db = db2 ∧
+          (Sys.step S c s (.lease 0 o.t2)).sent.map (·.frame) = (some (nakFrame c rx.msg)).toList := by
+      intro s hs
+      subst hs
+      rw [step_lease_none S c _ 0 o.t2 (by intro rx duid a h; simp at h)]
+      exact ⟨rfl, rfl⟩
+    cases r with
+    | error e =>
+      rw [handle_request_lerr S c db rx o hg htd hl]
+      exact hnakstate _ rfl
+    | ok lease =>
+      simp only []
+      by_cases hw : want.toNat = lease ∧ o.probeFree = true
+      · rw [if_pos hw]
+        have h3 := step_lease_some S c
+          ({ db := db2, pend := [.b2 rx duid lease], sent := [], calls := [(o.t1, DbOp.lookupByDuid duid), k0] } : Sys σ)
+          0 o.t2 (rx := rx) (duid := duid) (a := lease) rfl
+        simp only [] at h3
+        generalize hu : db2.updateClient S o.t2 (some (Ip4.ofNat lease)) duid c.leaseNs = u at h3
+        obtain ⟨db3, ru⟩ := u
+        have e : ([Pending.b1 rx duid want].set 0 (Pending.b2 rx duid lease)) = [Pending.b2 rx duid lease] := rfl
+        rw [e]
+        rw [h3]
+        cases ru with
+        | error e =>
+          rw [handle_request_uerr S c db rx o hg htd hl hw.1 hw.2 hu]
+          exact ⟨rfl, rfl⟩
+        | ok v =>
+          rw [handle_request_ack S c db rx o hg htd hl hw.1 hw.2 hu]
+          exact ⟨rfl, rfl⟩
+      · rw [if_neg hw, handle_request_nak S c db rx o hg htd hl hw]
+        exact hnakstate _ rfl
+
+end Seq
+
+theorem handle_is_a_run (c : SrvCfg) (db : IPDB Table) (b : Bytes) (rx : Rx) (o : HOracle) (tEnd : Int)
+    (hrx : rxChain b = .ok (some rx)) :
+    ∃ evs : List Ev, evs.length ≤ 3 ∧
+      (Sys.run tableStore c { db := db } evs).db = (handle tableStore c db rx o).1 ∧
+      ((Sys.run tableStore c { db := db } evs).sent.map (·.frame)) = (handle tableStore c db rx o).2.toList :=
+  handle_is_a_run_gen tableStore c db b rx o tEnd hrx
+
 end PsaDhcp.Proofs.Liveness
